@@ -386,7 +386,11 @@ func cmdC07(seed uint64, tier, outdir string) {
 			i--
 			continue
 		}
-		switch r.intn(8) {
+		switch r.intn(10) {
+		case 8, 9: // hit density exactly at / next to the detectRuns boundary
+			ntok, _, _, _ := tokCountLines(bc.c, d.text)
+			delta := []int{0, 0, 0, -1, 1}[r.intn(5)]
+			xs = append(xs, input{fmt.Sprintf("boundary-density%+d:%s", delta, d.name), boundarySub(r, d.text, 0.8, ntok, delta, bc.c, d.name)})
 		case 6, 7:
 			kk := []int{5, 5, 5, 6, 8, 10}[r.intn(6)]
 			xs = append(xs, input{fmt.Sprintf("every-%dth-word:%s", kk, d.name), evenlySub(r, d.text, kk, r.chance(1, 2))})
@@ -420,6 +424,12 @@ func cmdC07(seed uint64, tier, outdir string) {
 			continue
 		}
 		body += "\n"
+		// the property speaks about X "with at least the minimum matchable number of words": a text of fewer
+		// than q words (q = 4 at threshold 0.8) is matched only when it is the whole input
+		// (verifharness probeshort), so it is outside the property's domain
+		if nx, _, _, _ := tokCountLines(bc.c, []byte(body)); nx < bc.c.VerifQ() {
+			continue
+		}
 		ref := bc.c.Match([]byte(body))
 		nt := 0
 		if len(ref.Matches) > 0 {
@@ -477,6 +487,10 @@ func cmdC07(seed uint64, tier, outdir string) {
 
 // ---------- C10: totality on hostile input ----------
 
+var shortDocs = []string{"one", "one two", "alpha beta gamma", "alpha beta gamma delta", "red green blue black white",
+	"north south east west north south", "the quick brown fox jumps over the lazy dog", "version 2.0 of the gnu lesser general public license",
+	"one one one one", "a b c d e f g h i j k l"}
+
 func cmdC10(seed uint64, tier, outdir string) {
 	r := newRng(seed, "c10")
 	n := 150
@@ -513,8 +527,15 @@ func cmdC10(seed uint64, tier, outdir string) {
 			return c
 		}},
 		{"sample", func(t float64) *classifier.Classifier { return buildCorpus(t, small).c }},
+		{"short-docs", func(t float64) *classifier.Classifier {
+			c := classifier.NewClassifier(t)
+			for i, d := range shortDocs {
+				c.AddContent("License", fmt.Sprintf("S%d", i), "s.txt", []byte(d))
+			}
+			return c
+		}},
 	}
-	thrs := []float64{0, 5e-324, 0.01, 0.5, 0.8, 1}
+	thrs := []float64{0, 5e-324, 0.01, 0.5, 0.75, 0.8, 0.9, 0.95, 1}
 	type built struct {
 		name string
 		thr  float64
@@ -528,7 +549,14 @@ func cmdC10(seed uint64, tier, outdir string) {
 	}
 	cs = append(cs, built{"full", 0.8, fullEmbedded().c})
 	inputs := func() []byte {
-		switch r.intn(8) {
+		switch r.intn(10) {
+		case 8, 9: // a short corpus document at the very end (or start) of the input
+			d := shortDocs[r.intn(len(shortDocs))]
+			pre := []string{"", "zzqx ", oovBlock(r, 1+r.intn(10), 1), string(synthText(r, 1+r.intn(10))) + " "}[r.intn(4)]
+			if r.chance(1, 4) {
+				return []byte(d + " " + pre)
+			}
+			return []byte(pre + d)
 		case 0:
 			return hostileText(r, 1+r.intn(200))
 		case 1:
@@ -564,7 +592,7 @@ func cmdC10(seed uint64, tier, outdir string) {
 		in := inputs()
 		// thresholds below 2/3 give q = 1; matching then costs the sum of squared word
 		// frequencies per document (known finding, replayed separately below): keep those inputs short
-		if b.thr < 0.667 && (b.name == "sample" || b.name == "full" || b.name == "tiny") && len(in) > 80 {
+		if b.thr < 0.667 && (b.name == "sample" || b.name == "full" || b.name == "tiny" || b.name == "short-docs") && len(in) > 80 {
 			in = in[:80]
 		}
 		cw.printf("corpus=%s thr=%v %s\n", b.name, b.thr, quoteBytes(in, 200))
